@@ -99,7 +99,7 @@ theorem valuePosition_spec (amount : Dec) (unit : Option PostUnit) (vp : VP)
             · rename_i t ht
               cases h
               refine ⟨rfl, .inr ⟨hne, u, rfl, rfl, .inl ⟨v, hcl, rfl, by simpa using hneg, ht⟩⟩⟩
-            · cases h
+            · exact absurd h (Outcome.inexact_ne_ok _ _)   -- checked arithmetic (fix of F6)
 
 theorem valuePosition_scale (amount : Dec) (unit : Option PostUnit) (vp : VP)
     (ha : amount.scale ≤ 28)
@@ -222,7 +222,7 @@ theorem acceptPostings_shape (st st' : Settings) (r : RawTxn) (hwf : RawWF r) (a
         exact .inl ⟨hl, rfl⟩
       · rename_i a cmt hl
         split at h
-        · cases h
+        · exact absurd h (Outcome.inexact_ne_ok _ _)   -- checked arithmetic (fix of F6)
         · rename_i s hs
           split at h
           · cases h
@@ -280,7 +280,7 @@ theorem accept_balanced (st st' : Settings) (r : RawTxn) (t : Txn) (hwf : RawWF 
         · cases h
         · rename_i hany
           split at h
-          · cases h
+          · exact absurd h (Outcome.inexact_ne_ok _ _)   -- checked arithmetic (fix of F6)
           · rename_i s hs
             split at h
             · rename_i hz
@@ -320,7 +320,7 @@ theorem foreign_posting_priced (st st' : Settings) (r : RawTxn) (t : Txn) (hwf :
         · split at h
           · cases h
           · split at h
-            · cases h
+            · exact absurd h (Outcome.inexact_ne_ok _ _)   -- checked arithmetic (fix of F6)
             · split at h
               · cases h; rfl
               · cases h
@@ -364,7 +364,7 @@ theorem implicit_last (st st' : Settings) (r : RawTxn) (t : Txn) (hwf : RawWF r)
         · split at h
           · cases h
           · split at h
-            · cases h
+            · exact absurd h (Outcome.inexact_ne_ok _ _)   -- checked arithmetic (fix of F6)
             · split at h
               · cases h; rfl
               · cases h
@@ -495,7 +495,7 @@ theorem reject_unbalanced_or_mixed (st st' : Settings) (r : RawTxn) (hwf : RawWF
     · split at h
       · cases h
       · split at h
-        · cases h
+        · exact absurd h (Outcome.inexact_ne_ok _ _)   -- checked arithmetic (fix of F6)
         · split at h
           · cases h; rfl
           · cases h
